@@ -108,7 +108,7 @@ for _m, _p, _k in (("_render_sub_command_arguments", "arguments", "Argument"), (
                requires=(["all(bool(o._flags & 1) or o._short_name is not None for o in options)"] if _k == "Option" else []),
                ensures=["layout.g_added == old(layout.g_added) + len(%s) + 1" % _p], modifies=LAYOUT_MODS)
     R.loop(M_CH + ":CommandHelp." + _m, 0, invariants=["layout.g_added == old(layout.g_added) + _i"],
-           modifies=LAYOUT_MODS, fingerprint="%s in %s" % (_p[:-1], _p))
+           modifies=LAYOUT_MODS, fingerprint=" in %s" % _p)  # the invariant names no loop variable: a renamed one still verifies
 RSC = M_CH + ":CommandHelp._render_sub_command"
 R.contract(
     RSC, params={"layout": "ref BlockLayout", "command": "ref Command"},
